@@ -147,7 +147,11 @@ def plan(seed, n_ops, sizes=(3, 4, 5, 6, 7, 8), with_tokens=True):
             if m.slides and rng.random() < 0.3:
                 # the same move, derived from another slide with attrs.evolve (as callers that
                 # enumerate variations of a move do) instead of built by the constructor
-                other = tuple(rng.choice(_SLIDE_TEMPLATES + [(sum(m.slides) + 1,), (sum(m.slides) + 2,), (max(1, len(obj.board[m.x + m.y * obj.size]) if 0 <= m.x < obj.size and 0 <= m.y < obj.size else 1),)]))
+                try:  # (the object may have been damaged by the implementation: never index blindly)
+                    tall = max(1, len(obj.board[m.x + m.y * obj.size]))
+                except Exception:
+                    tall = 1
+                other = tuple(rng.choice(_SLIDE_TEMPLATES + [(sum(m.slides) + 1,), (sum(m.slides) + 2,), (tall,)]))
                 op["evolved_from"] = ",".join(str(d) for d in other)
             do(op)
         elif k == "copy":
